@@ -814,9 +814,12 @@ impl<'g, 's> LRTable<'g, 's> {
                                     match (&prod.assoc, &follow_term.assoc) {
                                         (Associativity::Left, Associativity::None)
                                         | (_, Associativity::Right) => {
-                                            // Override SHIFT with this REDUCE
-                                            assert!(actions.len() == 1);
-                                            actions.pop();
+                                            // Override SHIFT with this REDUCE.
+                                            // Reductions registered earlier
+                                            // for this terminal stay.
+                                            actions.retain(|x| {
+                                                !matches!(x, Action::Shift(_) | Action::Accept)
+                                            });
                                         }
                                         (Associativity::Right, Associativity::None)
                                         | (_, Associativity::Left) => {
@@ -844,9 +847,12 @@ impl<'g, 's> LRTable<'g, 's> {
                                 }
                                 Ordering::Greater => {
                                     // This item operation priority is higher =>
-                                    // override with reduce
-                                    assert!(actions.len() == 1);
-                                    actions.pop();
+                                    // override with reduce. Reductions
+                                    // registered earlier for this terminal
+                                    // stay.
+                                    actions.retain(|x| {
+                                        !matches!(x, Action::Shift(_) | Action::Accept)
+                                    });
                                 }
                             }
                         }
